@@ -94,6 +94,8 @@ instance : Codec Err where
     | .errorsNew => "errorsNew"
     | .jsonUnsupportedValue => "jsonUnsupportedValue"
     | .jsonUnmarshalType => "jsonUnmarshalType"
+    | .ioEOF => "ioEOF"
+    | .ioErrUnexpectedEOF => "ioErrUnexpectedEOF"
   dec s := match s with
     | "nil" => some .nil
     | "parseNumberRangeError" => some .parseNumberRangeError
@@ -105,6 +107,8 @@ instance : Codec Err where
     | "errorsNew" => some .errorsNew
     | "jsonUnsupportedValue" => some .jsonUnsupportedValue
     | "jsonUnmarshalType" => some .jsonUnmarshalType
+    | "ioEOF" => some .ioEOF
+    | "ioErrUnexpectedEOF" => some .ioErrUnexpectedEOF
     | _ => none
 
 /-- flatten a result tuple into protocol tokens -/
